@@ -13,7 +13,8 @@ import inspect
 import logging
 import threading
 from abc import ABC, abstractmethod
-from collections.abc import Callable, Iterable, Sized
+from collections import deque
+from collections.abc import Callable, Iterable, Iterator, Sized
 from dataclasses import dataclass, field
 from functools import wraps
 from itertools import count
@@ -49,6 +50,24 @@ if TYPE_CHECKING:
     from pynguin.instrumentation.controlflow import CFG, BasicBlockNode, ControlDependenceGraph
 
 immutable_types = (int, float, complex, str, tuple, frozenset, bytes)
+
+# Collections whose elements can be inspected without any effect that is observable by
+# the module under test: iterating them neither consumes them nor runs user code.
+_INSPECTABLE_COLLECTIONS = (
+    list,
+    tuple,
+    set,
+    frozenset,
+    dict,
+    str,
+    bytes,
+    bytearray,
+    range,
+    deque,
+    type({}.keys()),
+    type({}.values()),
+    type({}.items()),
+)
 
 VariableName = str | CellVar | FreeVar
 
@@ -1187,17 +1206,32 @@ def _in(val1, val2) -> float:
     except TypeError:
         # If `val2` does not support membership tests, we will handle it below.
         pass
+    return _in_distance(val1, val2)
 
-    # TODO(fk) maybe limit this to certain collections?
-    #  Check only if collection size is within some range,
+
+def _in_distance(val1, val2) -> float:
+    """How far ``val1``, which is known not to be in ``val2``, is from being in it.
+
+    Only the elements of built-in collections are inspected: iterating anything else
+    might consume it (iterators, generators, files) or run code of the module under
+    test (``__iter__``), which the membership test itself does not do. The elements
+    are not compared with ``val1`` again: the membership test compared them already,
+    or deliberately did not (hash-based collections).
+
+    Args:
+        val1: the value
+        val2: the collection
+
+    Returns:
+        a positive distance
+    """
+    # TODO(fk) Check only if collection size is within some range,
     #  otherwise the check might take very long.
-
-    # If `val2` is not iterable, there is no element to compare against.
-    if not isinstance(val2, Iterable):
+    if not isinstance(val2, _INSPECTABLE_COLLECTIONS):
         return inf
 
-    # Use the shortest distance to any element of the iterable.
-    return min([_eq(val1, v) for v in val2] + [inf])
+    # Use the shortest distance to any element of the collection.
+    return min([_eq_distance(val1, v) for v in val2] + [inf])
 
 
 def _nin(val1, val2) -> float:
@@ -1217,6 +1251,34 @@ def _nin(val1, val2) -> float:
         # Fallback to assuming element is not in collection if `val2` is not iterable
         return 0.0
     return 1.0
+
+
+def _membership_distances(val1, val2) -> tuple[float, float] | None:
+    """Distance computation for 'in' and 'not in' with a single membership test.
+
+    Args:
+        val1: the value
+        val2: the collection
+
+    Returns:
+        The distances of ``val1 in val2`` and of ``val1 not in val2``, or None if they
+        cannot be observed without changing what the module under test observes.
+    """
+    if isinstance(val2, Iterator) and not hasattr(type(val2), "__contains__"):
+        # Without `__contains__` a membership test iterates: it would consume the
+        # iterator up to the first match, and the subsequent test of the module under
+        # test would see the remainder only.
+        return None
+    try:
+        if val1 in val2:
+            return 0.0, 1.0
+    except Exception:  # noqa: BLE001
+        # `val2` does not support membership tests, `val1` is not hashable or not a
+        # valid element (`-1 in b"abc"` is a ValueError), ...: if the module under
+        # test executes this test, it is going to see the same exception; if it
+        # executes a subscript instead, there is nothing to raise.
+        pass
+    return _in_distance(val1, val2), 0.0
 
 
 def _is(val1, val2) -> float:
@@ -1423,16 +1485,14 @@ class ExecutionTracer(AbstractExecutionTracer):  # noqa: PLR0904
                         distance_true, distance_false = 0.0, _lt_distance(value1, value2)
                     else:
                         distance_true, distance_false = _le_distance(value2, value1), 0.0
-                case PynguinCompare.IN:
-                    distance_true, distance_false = (
-                        _in(value1, value2),
-                        _nin(value1, value2),
-                    )
-                case PynguinCompare.NOT_IN:
-                    distance_true, distance_false = (
-                        _nin(value1, value2),
-                        _in(value1, value2),
-                    )
+                case PynguinCompare.IN | PynguinCompare.NOT_IN:
+                    distances = _membership_distances(value1, value2)
+                    if distances is None:
+                        return
+                    if cmp_op == PynguinCompare.IN:
+                        distance_true, distance_false = distances
+                    else:
+                        distance_false, distance_true = distances
                 case PynguinCompare.IS:
                     distance_true, distance_false = (
                         _is(value1, value2),
@@ -1491,7 +1551,10 @@ class ExecutionTracer(AbstractExecutionTracer):  # noqa: PLR0904
         with self.temporarily_disable():
             value1 = tt.unwrap(value1)
             value2 = tt.unwrap(value2)
-            distance_true, distance_false = _in(value1, value2), _nin(value1, value2)
+            distances = _membership_distances(value1, value2)
+            if distances is None:
+                return
+            distance_true, distance_false = distances
             self._update_metrics(distance_false, distance_true, predicate)
 
     @_early_return
